@@ -9,6 +9,48 @@ class StepBudgetExceeded(BaseException):
     """Raised by the counting iterator when the logical step budget is exhausted (BaseException: not swallowed)."""
 
 
+class CountingFile:
+    """Proxy of the text file behind a LineIterator: counts the lines handed out, and separately those taken from the file
+    directly by a parser (lit.fh.read() / readline()) instead of through the iterator - they are "lines that were read" too."""
+
+    def __init__(self, fh, owner):
+        self._fh = fh
+        self._owner = owner
+
+    def __getattr__(self, name):
+        return getattr(self._fh, name)
+
+    def _count(self, text):
+        n = text.count("\n") + (1 if text and not text.endswith("\n") else 0)
+        self._owner.fh_lines += n
+        if not self._owner._in_next:
+            self._owner.direct_lines += n
+
+    def __iter__(self):
+        return self
+
+    def __next__(self):
+        line = next(self._fh)
+        self._count(line)
+        return line
+
+    def readline(self, *args):
+        line = self._fh.readline(*args)
+        self._count(line)
+        return line
+
+    def read(self, *args):
+        text = self._fh.read(*args)
+        self._count(text)
+        return text
+
+    def readlines(self, *args):
+        lines = self._fh.readlines(*args)
+        for line in lines:
+            self._count(line)
+        return lines
+
+
 def install():
     import iodata.api
     import iodata.utils
@@ -25,13 +67,26 @@ def install():
             self.n_read = 0
             self.back_calls = 0
             self.closed_on_exit = False
+            self.fh_lines = 0
+            self.direct_lines = 0
+            self._in_next = False
             CountingLineIterator.instances.append(self)
+
+        def __enter__(self):
+            res = super().__enter__()
+            if getattr(self, "fh", None) is not None and not isinstance(self.fh, CountingFile):
+                self.fh = CountingFile(self.fh, self)
+            return res
 
         def __next__(self):
             self.next_calls += 1
             if CountingLineIterator.budget is not None and self.next_calls > CountingLineIterator.budget:
                 raise StepBudgetExceeded(self.next_calls)
-            line = super().__next__()
+            self._in_next = True
+            try:
+                line = super().__next__()
+            finally:
+                self._in_next = False
             self.n_read += 1
             return line
 
